@@ -1721,10 +1721,16 @@ func (e *Extractor) Document() (*model.Document, []Warning, error) {
 				// nested items too (flattened, each with its level): their
 				// paragraphs are taken by this list
 				for _, item := range l.GetAllItems() {
+					itemText, bullet := item.Text, item.Prefix
+					if itemText == "" {
+						// a line that is nothing but a marker ("12"): the marker is
+						// its content, renderings that omit bullets must keep it
+						itemText, bullet = bullet, ""
+					}
 					listInfo.Items = append(listInfo.Items, model.ListItem{
-						Text:   item.Text,
+						Text:   itemText,
 						Level:  item.Level,
-						Bullet: item.Prefix,
+						Bullet: bullet,
 					})
 					if item.Level > 0 {
 						listInfo.Nested = true
